@@ -434,8 +434,12 @@ class Builder:
         L += stubs('near')
         for reg in self.regs:
             L.append(f'{reg}: ;0')
-        for v in self.vars:
+        for k, v in enumerate(self.vars):
             L.append(f'{v.name}: {v.kind}.vec {v.length}')
+            if v.role == 'data' or (k + self.w + len(self.vars)) % 2 == 0:
+                # what follows a variable is not always another variable: a cell that holds a code address (a jump-table entry, a
+                # stored return address). nothing may read or write past a vector's last cell, whatever sits there
+                L.append('    ;top')
         far = [r for r in self.regions if r.where in ('mid', 'high')]
         for region in self.regions:
             if region.where == 'stack':
@@ -1059,7 +1063,7 @@ def gen_pair(rng: random.Random, spec: PSpec, w: int, n: Optional[int] = None, a
                     pool.setdefault('idx', []).append(b.new_var('idx', lo=-4, hi=4))
             elif kind in ('hex', 'byte', 'hexn', 'byten', 'bit', 'bitaddr'):
                 need = {'hex': 1, 'byte': 2, 'hexn': n, 'byten': 2 * n, 'bit': 1, 'bitaddr': 1}[kind]
-                pool.setdefault('data', []).append(b.new_var('data', need + rng.choice([0, 1])))
+                pool.setdefault('data', []).append(b.new_var('data', need + k % 2))   # (exactly as long as the macro uses, then one cell longer)
         saved = b.pools
         b.pools = pool
         o = b.bind(spec, n, sequence=False)
